@@ -3,6 +3,12 @@ HOOK_COMMITS = ["4fb7413ef54f95fcd71b6fd0ad34cc0866ad35a4"]
 NOT_YET = "not claimed yet: model, theorems and correspondence for this property are still being built (see DESIGN.md section 12)"
 
 CHECKS = {
+    "C01": dict(text="Full-strength theorems about unifyF (the Lean model of unify_rec) for all terms, all solved prior substitutions, all fuel: "
+        "soundness (both sides resolve to the identical term, result extends the prior bindings and is solved again), most-generality "
+        "(every consistent unifier is an instance), completeness of failure (failure => no unifier), succeeds-iff, acyclicity of every "
+        "reachable substitution, occurs-check refusal, semantic characterisation of the extension, fuel independence and termination. "
+        "The solved-form model is tied to State::unify/SMap by differential runs (random deep cases, exhaustive small pairs in thorough) "
+        "compared on canonical walk* tuples; an independent Robinson unifier plus brute-force ground valuations search for failing inputs."),
     "C18": dict(text="Full-strength theorems (21, for all well-formed domains in both representations, all integers, all predicates): "
         "intersect/diff/is_disjoint/contains/min/max/is_singleton/singleton_value/iteration/==/copy_before/drop_before/From<Vec> of the Lean "
         "model of fd.rs equal the set operations, None exactly on empty results, results well-formed again. The model is tied to fd.rs by "
